@@ -1,5 +1,8 @@
 import GoatProofs.Lemmas.C12AKW
 import GoatProofs.Lemmas.C12AKWInv
+import GoatProofs.Lemmas.C12KDF
+import GoatProofs.Lemmas.C12Misc
+import GoatProofs.Lemmas.C12Pad
 import Goat.Model.KW.ECDHES
 import Goat.Model.KW.PBES2
 import Goat.Model.KW.AGCMKW
@@ -241,4 +244,375 @@ theorem akw_unwrap_ok_is_wrap (o : Oracle) (ks : Nat) (can : Bool) (key data cek
   rw [blocks_flatten 8 n _ hlen, List.take_append_drop]
 
 end AKW
+
+/-! ## Concat KDF (SP 800-56A §5.8.1 in the RFC 7518 §4.6.2 profile) and ECDH-ES -/
+section KDF
+open Spec.ConcatKDF Model.KW.ECDHES
+
+/-- **concatkdf_eq_spec.**  For every oracle (hash), every Z, AlgorithmID, apu, apv (any length,
+    including empty) and every output size (any number of rounds, including 0 and non-multiples of
+    the hash size), goat's reader loop yields exactly the specified derived keying material:
+    leftmost keySize octets of H(1‖Z‖OtherInfo) ‖ H(2‖Z‖OtherInfo) ‖ …, with length-prefixed
+    AlgorithmID / PartyUInfo / PartyVInfo and SuppPubInfo = keySize·8 as 32-bit big-endian. -/
+theorem concatkdf_eq_spec (o : Oracle) (z alg apu apv : Bytes) (keySize : Nat) :
+    PO.run o (Model.KW.ECDHES.deriveKey z alg apu apv keySize)
+      = .ok (Spec.ConcatKDF.deriveKey (hashFn o "sha256") z alg apu apv keySize) := by
+  unfold Model.KW.ECDHES.deriveKey Spec.ConcatKDF.deriveKey kdf
+  exact readFull_spec o _ (otherInfo alg apu apv keySize)
+    (fun r => roundInput_eq z alg apu apv keySize r) keySize (keySize + 1) 0 _ rfl rfl (by omega) (by omega)
+
+/-- non-vacuity / concreteness: with a hash oracle that answers 32 octets of 0x2a, a 40-octet key
+    (two rounds, truncated) and empty apu/apv is 40 octets of 0x2a. -/
+example : PO.run (fun _ => .bytes (List.replicate 32 42)) (Model.KW.ECDHES.deriveKey [1, 2, 3] [65] [] [] 40)
+    = .ok (List.replicate 40 42) := by
+  rw [concatkdf_eq_spec]; exact congrArg _ (by decide)
+
+/-- **ecdhes_unwrap_eq_spec** (composition).  ECDH-ES UnwrapKey derives, from the ECDH shared secret
+    Z, the Concat KDF output with AlgorithmID = the "alg" name in key wrapping mode (name ≠ "") and
+    the "enc" value in direct mode (RFC 7518 §4.6.2), of `size` octets (key wrapping) resp.
+    cekSize(enc) octets (direct, size = 0); direct mode returns that key, key wrapping mode returns
+    the RFC 3394 unwrapping of the encrypted key under it. -/
+theorem ecdhes_unwrap_eq_spec (o : Oracle) (name enc crv : String) (size : Nat)
+    (priv pub apu apv data z : Bytes)
+    (hz : (o ⟨"ecdh", [.str crv, .bytes priv, .bytes pub]⟩).asBytes? = some z) :
+    PO.run o (Model.KW.ECDHES.unwrapKey name size true enc crv priv pub apu apv data) =
+      (let key := Spec.ConcatKDF.deriveKey (hashFn o "sha256") z
+          (if name != "" then Bytes.ofString name else Bytes.ofString enc) apu apv
+          (if size = 0 then cekSize enc else size)
+       if size = 0 then .ok key else PO.run o (Model.KW.AKW.unwrapKey size true key data)) := by
+  unfold Model.KW.ECDHES.unwrapKey
+  simp only [Bool.not_true, Bool.false_eq_true, if_false, PO.run_bind, deriveZ, PO.run_query, hz,
+    PO.run_ofOption_some, concatkdf_eq_spec]
+  by_cases hs : size = 0
+  · subst hs
+    simp only [beq_self_eq_true, if_true, Model.KW.Dir.unwrapKey, Bool.not_true, Bool.false_eq_true, if_false,
+      PO.run_pure]
+  · have : (size == 0) = false := by simpa using hs
+    simp only [this, Bool.false_eq_true, if_false, hs]
+
+end KDF
+
+/-! ## PBES2 (RFC 7518 §4.8) -/
+section PBES2
+open Model.KW.PBES2
+
+/-- **pbes2_salt_format.**  The salt handed to PBKDF2 is `UTF8(alg) ‖ 0x00 ‖ p2s`: it equals the
+    specification's salt, starts with the octets of the algorithm name, continues with exactly one
+    zero octet and ends with the salt input — for every p2s including the empty one. -/
+theorem pbes2_salt_format (ps : Spec.PBES2.Params) (p2s : Bytes) :
+    Model.KW.PBES2.salt ps.name p2s = Spec.PBES2.salt ps p2s ∧
+    (Model.KW.PBES2.salt ps.name p2s).take (Bytes.ofString ps.name).length = Bytes.ofString ps.name ∧
+    (Model.KW.PBES2.salt ps.name p2s)[(Bytes.ofString ps.name).length]? = some 0x00 ∧
+    (Model.KW.PBES2.salt ps.name p2s).drop ((Bytes.ofString ps.name).length + 1) = p2s := by
+  refine ⟨by simp [Model.KW.PBES2.salt, Spec.PBES2.salt], ?_, ?_, ?_⟩
+  · simp [Model.KW.PBES2.salt, List.append_assoc]
+  · simp [Model.KW.PBES2.salt, List.append_assoc]
+  · simp only [Model.KW.PBES2.salt, List.nil_append, List.append_assoc]
+    rw [← List.drop_drop, List.drop_left' rfl]; rfl
+
+/-- the salt separates algorithm and salt input unambiguously: equal salts for the same algorithm
+    mean equal salt inputs -/
+theorem pbes2_salt_injective (ps : Spec.PBES2.Params) (a b : Bytes)
+    (h : Model.KW.PBES2.salt ps.name a = Model.KW.PBES2.salt ps.name b) : a = b := by
+  have ha := (pbes2_salt_format ps a).2.2.2
+  have hb := (pbes2_salt_format ps b).2.2.2
+  rw [← ha, ← hb, h]
+
+private theorem aesLen_ok (dk : Bytes) (n : Nat) (hl : dk.length = n) (hn : n = 16 ∨ n = 24 ∨ n = 32) :
+    Model.KW.AKW.keyAccepted 0 dk = true ∧ aesKeyOk dk = true := by
+  rcases hn with h | h | h <;> subst h <;> simp [Model.KW.AKW.keyAccepted, aesKeyOk, hl]
+
+/-- **pbes2_eq_spec.**  PBES2 WrapKey = RFC 3394 wrap under PBKDF2(password, UTF8(alg)‖00‖p2s,
+    p2c, keyLen) (p2c = 0 meaning "not supplied": 10000); UnwrapKey = RFC 3394 unwrap under the
+    same derived key.  For every password, salt input (any length), count, CEK of 8n octets. -/
+theorem pbes2_eq_spec (o : Oracle) (ps : Spec.PBES2.Params) (hps : ps.keyLen = 16 ∨ ps.keyLen = 24 ∨ ps.keyLen = 32)
+    (password p2s : Bytes) (p2c : Int) :
+    (∀ cek : Bytes, cek.length % 8 = 0 →
+      PO.run o (Model.KW.PBES2.wrapKey ps true password p2s p2c cek) =
+        .ok (Spec.PBES2.encryptKey ps (pbkdf2Fn o) (encFn o) password p2s (if p2c = 0 then 10000 else p2c) cek)) ∧
+    (∀ data : Bytes, data.length % 8 = 0 → 16 ≤ data.length →
+      PO.run o (Model.KW.PBES2.unwrapKey ps true password p2s p2c data) =
+        match Spec.PBES2.decryptKey ps (pbkdf2Fn o) (decFn o) password p2s p2c data with
+        | some cek => .ok cek
+        | none => .err "unwrap") := by
+  have hsalt : ∀ x, Model.KW.PBES2.salt ps.name x = Spec.PBES2.salt ps x := fun x => (pbes2_salt_format ps x).1
+  constructor
+  · intro cek h8
+    unfold Model.KW.PBES2.wrapKey Spec.PBES2.encryptKey
+    simp only [Bool.not_true, Bool.false_eq_true, if_false, PO.run_bind, run_pbkdf2Q, hsalt]
+    have hl : (pbkdf2Fn o ps.hash password (Spec.PBES2.salt ps p2s) (if p2c = 0 then 10000 else p2c) ps.keyLen).length
+        = ps.keyLen := fit_length _ _
+    obtain ⟨h1, h2⟩ := aesLen_ok _ _ hl hps
+    have : (if (p2c == 0) = true then (10000 : Int) else p2c) = (if p2c = 0 then 10000 else p2c) := by
+      by_cases h : p2c = 0 <;> simp [h]
+    rw [this]
+    exact akw_wrap_eq_spec o 0 _ cek h1 h2 h8
+  · intro data h8 h16
+    unfold Model.KW.PBES2.unwrapKey Spec.PBES2.decryptKey
+    simp only [Bool.not_true, Bool.false_eq_true, if_false, PO.run_bind, run_pbkdf2Q, hsalt]
+    have hl : (pbkdf2Fn o ps.hash password (Spec.PBES2.salt ps p2s) p2c ps.keyLen).length = ps.keyLen :=
+      fit_length _ _
+    obtain ⟨h1, h2⟩ := aesLen_ok _ _ hl hps
+    exact akw_unwrap_eq_spec o 0 _ data h1 h2 h8 h16
+
+/-- non-vacuity: the three registered parameter sets satisfy the key-length hypothesis -/
+example : Spec.PBES2.hs256a128kw.keyLen = 16 ∧ Spec.PBES2.hs384a192kw.keyLen = 24 ∧ Spec.PBES2.hs512a256kw.keyLen = 32 :=
+  ⟨rfl, rfl, rfl⟩
+
+end PBES2
+
+/-! ## AES GCM content encryption (RFC 7518 §5.3) and AES GCM key wrap (§4.7) -/
+section GCM
+
+private theorem keyLen_aes (k : Bytes) (n : Nat) (hn : n = 16 ∨ n = 24 ∨ n = 32) (h : k.length = n) :
+    aesKeyOk k = true := by
+  rcases hn with h' | h' | h' <;> subst h' <;> simp [aesKeyOk, h]
+
+/-- **agcm_eq_spec.**  For every key, IV, AAD, plaintext / ciphertext and tag — of any sizes —
+    goat's A*GCM Encrypt and Decrypt are the specification's functions over the library AEAD:
+    parameters outside the specification (key size ≠ the algorithm's, IV ≠ 96 bits, tag ≠ 128 bits)
+    give an error and never a panic; otherwise Encrypt splits `seal` at |plaintext| and Decrypt
+    opens ct ‖ tag. -/
+theorem agcm_eq_spec (o : Oracle) (keyLen : Nat) (hk : keyLen = 16 ∨ keyLen = 24 ∨ keyLen = 32)
+    (cek iv aad x tag : Bytes) :
+    (PO.run o (Model.Enc.AGCM.encrypt keyLen cek iv aad x)).toOption
+        = Spec.GCM.encrypt keyLen (gcmSealFn o) cek iv aad x ∧
+    (PO.run o (Model.Enc.AGCM.encrypt keyLen cek iv aad x)).isPanic = false ∧
+    (PO.run o (Model.Enc.AGCM.decrypt keyLen cek iv aad x tag)).toOption
+        = Spec.GCM.decrypt keyLen (gcmOpenFn o) cek iv aad x tag ∧
+    (PO.run o (Model.Enc.AGCM.decrypt keyLen cek iv aad x tag)).isPanic = false := by
+  unfold Model.Enc.AGCM.encrypt Model.Enc.AGCM.decrypt Spec.GCM.encrypt Spec.GCM.decrypt
+  simp only [Model.Enc.AGCM.nonceSize, Model.Enc.AGCM.tagSize]
+  by_cases h1 : cek.length = keyLen
+  · have hk' := keyLen_aes cek keyLen hk h1
+    by_cases h2 : iv.length = 12
+    · refine ⟨?_, ?_, ?_, ?_⟩
+      · simp [h1, h2, hk', slice_zero, slice_to_end, Outcome.toOption, fit_length]
+      · simp [h1, h2, hk', Outcome.isPanic]
+      · by_cases h3 : tag.length = 16
+        · have hne : (tag.length != 16) = false := by simp [h3]
+          simp only [h1, h2, hne, hk', bne_self_eq_false, Bool.false_eq_true, if_false, Bool.not_true,
+            PO.run_bind, concat_buf', run_gcmOpenQ, ne_eq, not_true_eq_false, false_or, h3]
+          cases gcmOpenFn o cek iv aad (x ++ tag) <;> rfl
+        · simp [h1, h2, h3, Outcome.toOption]
+      · by_cases h3 : tag.length = 16
+        · have hne : (tag.length != 16) = false := by simp [h3]
+          simp only [h1, h2, hne, hk', bne_self_eq_false, Bool.false_eq_true, if_false, Bool.not_true,
+            PO.run_bind, concat_buf', run_gcmOpenQ]
+          cases gcmOpenFn o cek iv aad (x ++ tag) <;> rfl
+        · simp [h1, h2, h3, Outcome.isPanic]
+    · simp [h1, h2, Outcome.toOption, Outcome.isPanic]
+  · simp [h1, Outcome.toOption, Outcome.isPanic]
+
+/-- **agcm_decrypt_encrypt.**  Under the AEAD law `open k iv aad (seal k iv aad p) = p`, Decrypt
+    inverts Encrypt for every plaintext and AAD (including empty). -/
+theorem agcm_decrypt_encrypt (o : Oracle) (keyLen : Nat) (hk : keyLen = 16 ∨ keyLen = 24 ∨ keyLen = 32)
+    (cek iv aad pt : Bytes) (h1 : cek.length = keyLen) (h2 : iv.length = 12)
+    (hlaw : gcmOpenFn o cek iv aad (gcmSealFn o cek iv aad pt) = some pt) :
+    PO.run o (Model.Enc.AGCM.encrypt keyLen cek iv aad pt >>= fun r =>
+      Model.Enc.AGCM.decrypt keyLen cek iv aad r.1 r.2) = .ok pt := by
+  have hk' := keyLen_aes cek keyLen hk h1
+  have hsl : (gcmSealFn o cek iv aad pt).length = pt.length + 16 := fit_length _ _
+  unfold Model.Enc.AGCM.encrypt Model.Enc.AGCM.decrypt
+  simp only [Model.Enc.AGCM.nonceSize, Model.Enc.AGCM.tagSize, h1, h2, hk', bne_self_eq_false,
+    Bool.false_eq_true, if_false, Bool.not_true, PO.run_bind, run_gcmSealQ, PO.run_pure, slice_zero, slice_to_end]
+  have ht : ((gcmSealFn o cek iv aad pt).drop pt.length).length = 16 := by rw [List.length_drop, hsl]; omega
+  simp only [ht, bne_self_eq_false, Bool.false_eq_true, if_false, PO.run_bind, concat_buf', run_gcmOpenQ,
+    List.take_append_drop, hlaw]
+  rfl
+
+/-- **gcmkw_eq_spec.**  A*GCMKW WrapKey (caller-supplied iv) and UnwrapKey are the specification's
+    functions: AEAD with empty AAD, the CEK as plaintext, encrypted key = ciphertext output, "tag" =
+    the 128-bit tag; wrong key / iv / tag sizes give an error, never a panic. -/
+theorem gcmkw_eq_spec (o : Oracle) (keyLen : Nat) (hk : keyLen = 16 ∨ keyLen = 24 ∨ keyLen = 32)
+    (key iv x tag : Bytes) (hiv : iv.length ≠ 0) :
+    (PO.run o (Model.KW.AGCMKW.wrapKey keyLen true key iv x)).toOption
+        = Spec.GCM.wrapKey keyLen (gcmSealFn o) key iv x ∧
+    (PO.run o (Model.KW.AGCMKW.wrapKey keyLen true key iv x)).isPanic = false ∧
+    (PO.run o (Model.KW.AGCMKW.unwrapKey keyLen true key iv tag x)).toOption
+        = Spec.GCM.unwrapKey keyLen (gcmOpenFn o) key iv x tag ∧
+    (PO.run o (Model.KW.AGCMKW.unwrapKey keyLen true key iv tag x)).isPanic = false := by
+  unfold Model.KW.AGCMKW.wrapKey Model.KW.AGCMKW.unwrapKey Spec.GCM.wrapKey Spec.GCM.unwrapKey
+    Spec.GCM.encrypt Spec.GCM.decrypt Model.KW.AGCMKW.keyAccepted
+  by_cases h1 : key.length = keyLen
+  · have hk' := keyLen_aes key keyLen hk h1
+    by_cases h2 : iv.length = 12
+    · refine ⟨?_, ?_, ?_, ?_⟩
+      · simp [h1, h2, hk', slice_zero, slice_to_end, Outcome.toOption, fit_length]
+      · simp [h1, h2, hk', Outcome.isPanic]
+      · by_cases h3 : tag.length = 16
+        · have hne : (tag.length != 16) = false := by simp [h3]
+          simp only [h1, h2, hne, hk', beq_self_eq_true, Bool.and_self, bne_self_eq_false, Bool.false_eq_true,
+            if_false, Bool.not_true, PO.run_bind, concat_buf', run_gcmOpenQ, ne_eq, not_true_eq_false, false_or, h3]
+          cases gcmOpenFn o key iv [] (x ++ tag) <;> rfl
+        · simp [h1, h2, h3, hk', Outcome.toOption]
+      · by_cases h3 : tag.length = 16
+        · have hne : (tag.length != 16) = false := by simp [h3]
+          simp only [h1, h2, hne, hk', beq_self_eq_true, Bool.and_self, bne_self_eq_false, Bool.false_eq_true,
+            if_false, Bool.not_true, PO.run_bind, concat_buf', run_gcmOpenQ]
+          cases gcmOpenFn o key iv [] (x ++ tag) <;> rfl
+        · simp [h1, h2, h3, hk', Outcome.isPanic]
+    · simp [h1, h2, hk', hiv, Outcome.toOption, Outcome.isPanic]
+  · simp [h1, Outcome.toOption, Outcome.isPanic]
+
+end GCM
+
+/-! ## AES_CBC_HMAC_SHA2 (RFC 7518 §5.2.2) -/
+section CBCHS
+open Spec.CBCHS Model.Enc.ACBC
+
+private theorem key_split (ps : Spec.CBCHS.Params) (cek : Bytes) (h1 : cek.length = ps.macKeyLen + ps.encKeyLen) :
+    slice cek 0 ps.macKeyLen = cek.take ps.macKeyLen ∧
+    slice cek ps.macKeyLen (ps.macKeyLen + ps.encKeyLen) = cek.drop ps.macKeyLen ∧
+    (cek.drop ps.macKeyLen).length = ps.encKeyLen ∧
+    ps.macKeyLen + ps.encKeyLen - ps.encKeyLen = ps.macKeyLen := by
+  refine ⟨slice_zero _ _, ?_, ?_, by omega⟩
+  · rw [← h1, slice_to_end]
+  · rw [List.length_drop]; omega
+
+/-- **cbchs_encrypt_eq_spec.**  For every CEK, IV, AAD (any length incl. empty) and plaintext (every
+    length): goat's Encrypt — MAC_KEY‖ENC_KEY split, PKCS #7 padding, block-at-a-time CBC over one
+    buffer, HMAC over AAD‖IV‖E‖AL with AL the 64-bit big-endian *bit* length of the AAD, tag
+    truncated to T_LEN — is exactly RFC 7518 §5.2.2.1; invalid key / IV sizes give an error. -/
+theorem cbchs_encrypt_eq_spec (o : Oracle) (ps : Spec.CBCHS.Params)
+    (hps : ps.encKeyLen = 16 ∨ ps.encKeyLen = 24 ∨ ps.encKeyLen = 32) (cek iv aad pt : Bytes) :
+    (PO.run o (Model.Enc.ACBC.encrypt ps cek iv aad pt)).toOption
+      = Spec.CBCHS.encrypt ps (encFn o) (hmacFn o ps.hash) cek iv aad pt ∧
+    (PO.run o (Model.Enc.ACBC.encrypt ps cek iv aad pt)).isPanic = false := by
+  unfold Model.Enc.ACBC.encrypt Spec.CBCHS.encrypt
+  by_cases h1 : cek.length = ps.macKeyLen + ps.encKeyLen
+  · obtain ⟨hm, he, hel, hsub⟩ := key_split ps cek h1
+    have hk' := keyLen_aes _ _ hps hel
+    by_cases h2 : iv.length = 16
+    · have hpl := pad_length pt
+      have hm16 : (pad pt).length = 16 * ((pad pt).length / 16) := by omega
+      have hpad : padding pt 16 = pad pt := rfl
+      simp only [h1, h2, hm, he, hk', hsub, blockSize, bne_self_eq_false, Bool.false_eq_true, if_false,
+        Bool.not_true, PO.run_bind, hpad, ne_eq, not_true_eq_false, or_self]
+      rw [run_forUp o _ (encIterP (encFn o (cek.drop ps.macKeyLen)))
+        (run_encIter o (cek.drop ps.macKeyLen))]
+      simp only [run_calcAuthTag, PO.run_pure]
+      rw [encLoop_all _ (encFn_length o _) _ _ _ hm16]
+      exact ⟨rfl, rfl⟩
+    · simp [h1, h2, hk', he, hsub, blockSize, Outcome.toOption, Outcome.isPanic]
+  · simp [h1, Outcome.toOption, Outcome.isPanic]
+
+/-- **cbchs_decrypt_eq_spec.**  For every CEK, IV, AAD, ciphertext and tag (any sizes): goat's
+    Decrypt — decrypt first, then the combined constant-time decision "tag equal AND padding good AND
+    1 ≤ padding ≤ 16" — returns exactly what RFC 7518 §5.2.2.2 returns (plaintext, or failure),
+    and never panics. -/
+theorem cbchs_decrypt_eq_spec (o : Oracle) (ps : Spec.CBCHS.Params)
+    (hps : ps.encKeyLen = 16 ∨ ps.encKeyLen = 24 ∨ ps.encKeyLen = 32) (cek iv aad ct tag : Bytes) :
+    (PO.run o (Model.Enc.ACBC.decrypt ps cek iv aad ct tag)).toOption
+      = Spec.CBCHS.decrypt ps (decFn o) (hmacFn o ps.hash) cek iv aad ct tag ∧
+    (PO.run o (Model.Enc.ACBC.decrypt ps cek iv aad ct tag)).isPanic = false := by
+  unfold Model.Enc.ACBC.decrypt Spec.CBCHS.decrypt
+  by_cases h1 : cek.length = ps.macKeyLen + ps.encKeyLen
+  · obtain ⟨hm, he, hel, hsub⟩ := key_split ps cek h1
+    have hk' := keyLen_aes _ _ hps hel
+    by_cases h2 : iv.length = 16
+    · by_cases h3 : ct.length % 16 = 0
+      · have hm16 : ct.length = 16 * (ct.length / 16) := by omega
+        simp only [h1, h2, h3, hm, he, hk', hsub, blockSize, bne_self_eq_false, Bool.false_eq_true, if_false,
+          Bool.not_true, PO.run_bind, ne_eq, not_true_eq_false, or_self]
+        rw [run_forUp o _ (decIterP (decFn o (cek.drop ps.macKeyLen)) ct)
+          (run_decIter o (cek.drop ps.macKeyLen) ct)]
+        simp only [run_calcAuthTag]
+        rw [decLoop_all _ (decFn_length o _) ct iv _ hm16 h2]
+        generalize (cbcDec (decFn o (cek.drop ps.macKeyLen)) iv (blocks 16 (ct.length / 16) ct)).flatten = P
+        have hdec := padding_decision P
+        simp only at hdec
+        generalize extractPadding P = r at hdec
+        obtain ⟨toRemove, good⟩ := r
+        simp only at hdec ⊢
+        by_cases ht : tag = Spec.CBCHS.tag ps (hmacFn o ps.hash) (cek.take ps.macKeyLen) aad iv ct
+        · subst ht
+          simp only [beq_self_eq_true, Bool.true_and, not_true_eq_false, if_false]
+          rw [← hdec]
+          cases good <;> by_cases hr : (1 ≤ toRemove ∧ toRemove ≤ 16) <;>
+            simp [hr, slice_zero, Outcome.toOption, Outcome.isPanic]
+        · have : (tag == Spec.CBCHS.tag ps (hmacFn o ps.hash) (cek.take ps.macKeyLen) aad iv ct) = false := by
+            simpa using ht
+          simp [this, ht, Outcome.toOption, Outcome.isPanic]
+      · simp [h1, h2, h3, hk', he, hsub, blockSize, Outcome.toOption, Outcome.isPanic]
+    · simp [h1, h2, hk', he, hsub, blockSize, Outcome.toOption, Outcome.isPanic]
+  · simp [h1, Outcome.toOption, Outcome.isPanic]
+
+/-- **cbchs_decrypt_ok_tag.**  If Decrypt returns a plaintext then: the key and IV have the sizes of
+    the algorithm, the ciphertext is a whole number of blocks, the presented tag equals the first
+    T_LEN octets of HMAC(MAC_KEY, AAD ‖ IV ‖ CT ‖ AL) — i.e. AAD, IV and ciphertext are exactly the
+    authenticated ones — and the plaintext is the CBC decryption with valid PKCS #7 padding removed. -/
+theorem cbchs_decrypt_ok_tag (o : Oracle) (ps : Spec.CBCHS.Params)
+    (hps : ps.encKeyLen = 16 ∨ ps.encKeyLen = 24 ∨ ps.encKeyLen = 32) (cek iv aad ct tag pt : Bytes)
+    (h : PO.run o (Model.Enc.ACBC.decrypt ps cek iv aad ct tag) = .ok pt) :
+    cek.length = ps.macKeyLen + ps.encKeyLen ∧ iv.length = 16 ∧ ct.length % 16 = 0 ∧
+    tag = ((hmacFn o ps.hash) (cek.take ps.macKeyLen) (aad ++ iv ++ ct ++ be64 (aad.length * 8))).take ps.tLen ∧
+    unpad (cbcDec (decFn o (cek.drop (cek.length - ps.encKeyLen))) iv (blocks 16 (ct.length / 16) ct)).flatten
+      = some pt := by
+  have hs := (cbchs_decrypt_eq_spec o ps hps cek iv aad ct tag).1
+  rw [h] at hs
+  simp only [Outcome.toOption, Spec.CBCHS.decrypt] at hs
+  split at hs
+  · cases hs
+  · rename_i hc
+    split at hs
+    · cases hs
+    · rename_i ht
+      have hc' : cek.length = ps.macKeyLen + ps.encKeyLen ∧ iv.length = 16 ∧ ct.length % 16 = 0 := by
+        refine ⟨?_, ?_, ?_⟩ <;> (apply Classical.byContradiction; intro hn; exact hc (by simp [hn]))
+      refine ⟨hc'.1, hc'.2.1, hc'.2.2, ?_, hs.symm⟩
+      have : tag = Spec.CBCHS.tag ps (hmacFn o ps.hash) (cek.take ps.macKeyLen) aad iv ct :=
+        Classical.byContradiction (fun hn => ht hn)
+      rw [this]; rfl
+
+/-- **cbchs_decrypt_encrypt.**  Under the block-cipher law `D k (E k x) = x` on 16-octet blocks
+    (HMAC being a function — determinism is built into the oracle type), Decrypt inverts Encrypt for
+    every plaintext length (every residue mod 16) and every AAD including the empty one. -/
+theorem cbchs_decrypt_encrypt (o : Oracle) (ps : Spec.CBCHS.Params)
+    (hps : ps.encKeyLen = 16 ∨ ps.encKeyLen = 24 ∨ ps.encKeyLen = 32) (cek iv aad pt : Bytes)
+    (h1 : cek.length = ps.macKeyLen + ps.encKeyLen) (h2 : iv.length = 16)
+    (hDE : ∀ x, x.length = 16 → decFn o (cek.drop (cek.length - ps.encKeyLen))
+        (encFn o (cek.drop (cek.length - ps.encKeyLen)) x) = x) :
+    PO.run o (Model.Enc.ACBC.encrypt ps cek iv aad pt >>= fun r =>
+      Model.Enc.ACBC.decrypt ps cek iv aad r.1 r.2) = .ok pt := by
+  have henc := (cbchs_encrypt_eq_spec o ps hps cek iv aad pt).1
+  have hpl := pad_length pt
+  have hm16 : (pad pt).length = 16 * ((pad pt).length / 16) := by omega
+  generalize hek : cek.drop (cek.length - ps.encKeyLen) = ek at hDE
+  have hsub : ps.macKeyLen + ps.encKeyLen - ps.encKeyLen = ps.macKeyLen := by omega
+  have hek' : cek.drop ps.macKeyLen = ek := by rw [← hek, h1, hsub]
+  have hU := blocks_uniform 16 ((pad pt).length / 16) (pad pt) (by omega)
+  have hBl := blocks_length 16 ((pad pt).length / 16) (pad pt)
+  have hBf := blocks_flatten 16 ((pad pt).length / 16) (pad pt) hm16
+  obtain ⟨hCU, hCl⟩ := cbcEnc_uniform (encFn o ek) (encFn_length o ek) (blocks 16 ((pad pt).length / 16) (pad pt)) iv
+  have hspec : Spec.CBCHS.encrypt ps (encFn o) (hmacFn o ps.hash) cek iv aad pt
+      = some ((cbcEnc (encFn o ek) iv (blocks 16 ((pad pt).length / 16) (pad pt))).flatten,
+          Spec.CBCHS.tag ps (hmacFn o ps.hash) (cek.take ps.macKeyLen) aad iv
+            (cbcEnc (encFn o ek) iv (blocks 16 ((pad pt).length / 16) (pad pt))).flatten) := by
+    simp [Spec.CBCHS.encrypt, h1, h2, hsub, hek']
+  rw [hspec] at henc
+  rw [PO.run_bind, toOption_eq_some _ _ henc]
+  simp only
+  have hdec := (cbchs_decrypt_eq_spec o ps hps cek iv aad
+    (cbcEnc (encFn o ek) iv (blocks 16 ((pad pt).length / 16) (pad pt))).flatten
+    (Spec.CBCHS.tag ps (hmacFn o ps.hash) (cek.take ps.macKeyLen) aad iv
+      (cbcEnc (encFn o ek) iv (blocks 16 ((pad pt).length / 16) (pad pt))).flatten)).1
+  apply toOption_eq_some
+  rw [hdec]
+  have hel : (cbcEnc (encFn o ek) iv (blocks 16 ((pad pt).length / 16) (pad pt))).flatten.length
+      = 16 * (cbcEnc (encFn o ek) iv (blocks 16 ((pad pt).length / 16) (pad pt))).length := flatten_length hCU
+  have hdiv : (cbcEnc (encFn o ek) iv (blocks 16 ((pad pt).length / 16) (pad pt))).flatten.length / 16
+      = (cbcEnc (encFn o ek) iv (blocks 16 ((pad pt).length / 16) (pad pt))).length := by rw [hel]; omega
+  simp only [Spec.CBCHS.decrypt, h1, h2, hel, hsub, hek', ne_eq, not_true_eq_false, Nat.mul_mod_right, false_or,
+    if_false, Nat.mul_div_cancel_left _ (by decide : 0 < 16)]
+  rw [blocks_of_flatten_k 16 _ hCU, cbcDec_cbcEnc _ _ (encFn_length o ek) hDE _ hU iv h2, hBf, unpad_pad]
+
+/-- non-vacuity of the inverse theorem: toy invertible block function, A128CBC-HS256 sizes,
+    a 5-octet plaintext and empty AAD -/
+example : PO.run toyOracle (Model.Enc.ACBC.encrypt a128cbcHS256 (List.replicate 32 3) (List.replicate 16 9) [] [1, 2, 3, 4, 5]
+      >>= fun r => Model.Enc.ACBC.decrypt a128cbcHS256 (List.replicate 32 3) (List.replicate 16 9) [] r.1 r.2)
+    = .ok [1, 2, 3, 4, 5] :=
+  cbchs_decrypt_encrypt toyOracle a128cbcHS256 (Or.inl rfl) _ _ _ _ rfl rfl (fun x hx => toy_inverse _ x hx)
+
+end CBCHS
 end C12
